@@ -60,7 +60,7 @@ def run_body(rep, r, wd, quick):
     for _ in range(40 if quick else 1000):         # larger random graphs with cycles
         progs_.append(vprogs.random_prog(r, nmem=r.choice([3, 4]), nplain=r.choice([1, 2, 3]), nvar=1, hidden_p=0.0,
                                          forms=("bare", "attr", "alias", "wrapped", "wrapped2"), acyclic=False,
-                                         twins_p=0.2))
+                                         twins_p=0.2, deco_p=0.5))
     for p in progs_:
         mems = [n["name"] for n in p["nodes"] if n["kind"] == "mem"]
         jobs.append({"prog": p, "steps": [{"do": "proc", "hashseed": "0"}] + [{"do": "deps", "name": m_} for m_ in mems]})
@@ -69,7 +69,7 @@ def run_body(rep, r, wd, quick):
         p = vprogs.random_prog(r, nmem=r.choice([3, 4]), nplain=r.choice([1, 2]), nvar=1, hidden_p=0.7,
                                forms=("bare", "attr", "alias"), acyclic=True)
         jobs.append({"prog": p, "steps": [{"do": "proc", "hashseed": "0"},
-                                          {"do": "call", "name": "m1", "how": ["plain", "clone", "partial"][i % 3]}]})
+                                          {"do": "call", "name": "m1", "how": ["plain", "clone", "partial", "chain2", "chain3"][i % 5]}]})
     for i in range(12 if quick else 200):          # a function handed over as an argument may be called -- in that invocation only
         p = vprogs.random_prog(r, nmem=r.choice([3, 4]), nplain=1, nvar=1, hidden_p=0.0, forms=("bare", "attr"), acyclic=True)
         m1 = vprogs.node(p, "m1")
@@ -83,7 +83,7 @@ def run_body(rep, r, wd, quick):
         t = r.choice(outside)
         m1["fnarg"] = True
         m1["hidden"] = [t]
-        how = ["plain", "clone", "partial"][i % 3]
+        how = ["plain", "clone", "partial", "chain2", "chain3"][i % 5]
         steps = [{"do": "proc", "hashseed": "0"}]
         order = r.choice([("arg", "bare"), ("arg", "bare", "arg"), ("bare", "arg", "bare")])
         for j, kind in enumerate(order, start=1):
